@@ -102,4 +102,20 @@ PLAN = {
             {"name": "miri", "leg": "miri", "flavour": "miri", "shards": 12, "shards_thorough": 96, "miriflags": IGN, "timeout": 1200},
         ],
     },
+    "C20": {
+        "level": "exploration",
+        "rule": "trials leg: fresh wrapper/handle pairs (verif_build) around a recorder double that stamps enter/exit, lingers a bounded "
+                "number of steps inside each call and counts drops; 1-6 emitter threads (register/describe of all kinds) race one "
+                "recoverer (into_inner, or drop(handle) in a third of the trials); a third of the trials gate an emitter right after its "
+                "weak->strong upgrade until the recoverer has spun, a third use random holds. install leg: process-per-trial of the real "
+                "install(), success path with macro emitters and already-installed failure path. case = trial; distinct = (hook "
+                "interleaving signature, recovery stamps) hash.",
+        "assumptions": ["finalisation begins when into_inner returns or when Drop starts", "emissions overlapping the recovery may go either way",
+                        "bounded progress: install() on the failure path with no emission in flight must return within the 20 s watchdog"],
+        "legs": [
+            {"name": "trials", "flavour": "native", "shards": 4, "shards_thorough": 16},
+            {"name": "install", "flavour": "native", "shards": 8, "shards_thorough": 64, "timeout": 120},
+            {"name": "miri", "leg": "miri", "flavour": "miri", "shards": 8, "shards_thorough": 64, "timeout": 1200},
+        ],
+    },
 }
